@@ -1,6 +1,7 @@
 """C11 -- ledger tables present the Beancount directives faithfully and completely (spec/Ledger.tla).
 
-legs: MC   TLC checks, for every well-formed ledger of <= 3 (4) directives over a 16-letter alphabet and every table,
+legs: MC   TLC checks, for every well-formed ledger of <= 3 (4) directives over a 16-letter alphabet (and over a 10-letter
+           alphabet of repeated open / close / commodity directives) and every table,
            that the iteration mechanism of the code (one reusable row context, rowid, isinstance filter, open/close
            map fold, commodity map) yields exactly the declarative rows, plus the flattening / partition / NULL laws;
            two deliberately broken mechanisms must be rejected (non-vacuity)
@@ -29,6 +30,16 @@ keys: NULL unless the ledger has that twin).  Ledger.tla states the lookups as e
 matches, model-checks the code's dict.get mechanism against them (LookupsEqDecl) and a mechanism that lower-cases the
 key must be rejected.
 
+Directive counts are free ("any directive types and counts"): an account may be opened / closed and a currency declared by
+several directives (Beancount reports that and keeps every directive; directly constructed entry lists carry them freely).
+#accounts / #commodities then have ONE row per account / currency and open_meta / open_date / close_date / commodity_meta
+read ONE directive -- the one Beancount takes for THE open / close / commodity directive (Ledger.tla: OpenIdx, CloseIdx,
+CommodityIdx: the chronologically earliest open / close, the first listed on equal dates; the commodity directive listed
+last: a later declaration supersedes).  MC: the open/close map fold and the commodity map of the code against that
+declaration over an alphabet of repeated directives (a map that keeps the first commodity directive / the first listed open
+directive must be rejected); S2C: every ledger of <= 3 directives with such a repetition over that alphabet; C2S: the
+random ledgers re-declare commodities with other metadata and open / close accounts again.
+
 Columns without counterpart in the model (`id`, `balance`, unknown future columns) get generic checks only
 (declared type, id stability / consistency) and are counted as uncovered.
 """
@@ -37,11 +48,13 @@ import datetime
 import decimal
 import hashlib
 import json
+import random
 
 from harness import ledgergen as lg
 from harness.core import MachineryError
 
 GEN_PARTS = 8       # Gen_Ledger2 is emitted in 8 portions (by first directive)
+DUP_QUICK = 180     # ledgers of Gen_LedgerDup replayed in the quick tier
 OOD_AMOUNT = {'n': [0, 0], 'c': '<out of the 32-bit domain>'}
 
 
@@ -567,6 +580,20 @@ def mixed_case_hits(posting_rows):
     return hits
 
 
+def ties(abstract_entries):
+    """accounts opened / closed and currencies declared by more than one directive: {kind: how many of them}"""
+    seen = {}
+    for d in abstract_entries:
+        if d['k'] in ('open', 'close', 'commodity'):
+            k = (d['k'], d['account'] if d['k'] != 'commodity' else d['currency'])
+            seen[k] = seen.get(k, 0) + 1
+    out = {}
+    for (kind, _), n in seen.items():
+        if n > 1:
+            out[kind] = out.get(kind, 0) + 1
+    return out
+
+
 def ledger_key(abstract_entries, history=()):
     return hashlib.blake2b(json.dumps([abstract_entries, list(history)], sort_keys=True).encode(), digest_size=8).hexdigest()
 
@@ -630,6 +657,7 @@ class Recorder:
         self.statements = 0
         self.forms = {}
         self.mixed = {}
+        self.ties = {}
 
     def add(self, entries, options, kind, abstract=None, text_lookups=False, history=None):
         """observe one ledger on the real code -- after `history` (a list of abstract statements, or a function of the
@@ -671,6 +699,8 @@ class Recorder:
         self.cells += obs.cells
         for k, v in mixed_case_hits(obs.rows['postings']).items():
             self.mixed[k] = self.mixed.get(k, 0) + v
+        for k in ties(abstract):
+            self.ties[k] = self.ties.get(k, 0) + 1
         ctx.skipped += obs.ood_cells
         ctx.case(ledger_key(abstract, history), any(d['k'] == 'txn' for d in abstract), n=obs.cells)
         if self.n <= 1:
@@ -748,7 +778,8 @@ class Recorder:
         self.ctx.leg('C2S', lines=self.lines, rejected=self.rejected, skipped_not_wellformed=self.not_wellformed,
                      kinds=self.kinds, cells=self.cells, uncovered_cells=self.uncovered, what=what,
                      ledgers_read_after_a_history=self.with_history, history_statements_executed=self.statements,
-                     history_forms=self.forms, lookups_of_keys_with_upper_case_letters_having_a_value=self.mixed)
+                     history_forms=self.forms, lookups_of_keys_with_upper_case_letters_having_a_value=self.mixed,
+                     ledgers_with_an_account_or_currency_of_several_directives=self.ties)
         return rejected
 
 
@@ -780,7 +811,7 @@ def s2c_eval(arg):
     for d in p['ledger']:
         kinds[d['k']] = kinds.get(d['k'], 0) + 1
     out = {'viol': viol, 'bad': bad, 'cells': obs.cells, 'uncovered': obs.uncovered, 'kinds': kinds,
-           'mixed': mixed_case_hits(p['rows']['postings']),
+           'mixed': mixed_case_hits(p['rows']['postings']), 'ties': ties(p['ledger']),
            'key': ledger_key(p['ledger'], hist), 'nontrivial': 'txn' in kinds, 'hist': hist, 'statements': obs.statements}
     if viol or p.get('want_ledger'):
         out.update(ledger=p['ledger'], keys=p['keys'], row1=p['rows']['postings'][:1])
@@ -796,7 +827,7 @@ class S2C:
         self.rec = rec
         self.reload_every = reload_every
         self.stats = {'n': 0, 'cells': 0, 'bad': 0, 'uncovered': {}, 'kinds': {}, 'unprintable': 0, 'with_history': 0,
-                      'statements': 0, 'forms': {}, 'mixed': {}}
+                      'statements': 0, 'forms': {}, 'mixed': {}, 'ties': {}}
         self.seen = set()
         # parse the per-table statements (about 1 s each with TatSu) once, before the workers are forked
         Observation([], lg.default_options(), []).run()
@@ -809,11 +840,11 @@ class S2C:
             self.pool.close()
             self.pool.join()
 
-    def batch(self, printed):
+    def batch(self, printed, alphabet=''):
         ctx, stats = self.ctx, self.stats
         args = []
         for p in printed:
-            k = tuple(p['lx'])
+            k = (alphabet,) + tuple(p['lx'])       # lx = indices into the alphabet of the generator configuration
             if k in self.seen:
                 continue
             self.seen.add(k)
@@ -842,6 +873,8 @@ class S2C:
                 stats['kinds'][k] = stats['kinds'].get(k, 0) + v
             for k, v in r['mixed'].items():
                 stats['mixed'][k] = stats['mixed'].get(k, 0) + v
+            for k in r['ties']:
+                stats['ties'][k] = stats['ties'].get(k, 0) + 1
             ctx.case(r['key'], r['nontrivial'], n=r['cells'])
             ctx.traces += 1
             if 'ledger' not in r:
@@ -872,8 +905,14 @@ def run(ctx):
                 'distinct = distinct (ledger, history) pairs (hash of the abstract ledger and history); '
                 'non-trivial = the ledger has at least one transaction')
     ctx.assumptions += [
-        'ledgers in the domain: at most one open / close per account and one commodity directive per currency, '
-        'directive and posting metadata dictionaries carry filename (str) and lineno (int); others are skipped and counted',
+        'ledgers in the domain: directive and posting metadata dictionaries carry filename (str) and lineno (int); others '
+        'are skipped and counted',
+        'an account opened / closed or a currency declared by several directives: the statement says "the corresponding '
+        'directives" / "the account-open and commodity metadata lookups" without saying which of several directives '
+        'that is; taken from Beancount, whose directives the tables present (beancount.core.getters): the chronologically '
+        'earliest open / close directive, the first listed one on equal dates (get_account_open_close, documented); the '
+        'commodity directive listed last -- a later declaration supersedes (get_commodity_directives); one row per '
+        'account / currency in #accounts / #commodities',
         'freedom left by the statement: cost_label of a posting without cost may be \'\' or NULL; any_meta of a posting '
         'without metadata dictionary may be NULL or the transaction\'s value; #accounts and #commodities are compared as '
         'sets of rows; other_accounts, tags, links, metadata dictionaries are compared as sets',
@@ -892,7 +931,9 @@ def run(ctx):
     # ---- MC
     if not only or 'MC' in only:
         # -coverage slows TLC down threefold: per-action coverage is measured on the <= 1 directive instance
-        for cfg, kw in [('MC_Ledger.cfg', {})] + ([] if ctx.quick else [('MC_Ledger4.cfg', {})]) + [
+        # (MC_Ledger_dup*: the alphabet of repeated open / close / commodity directives)
+        for cfg, kw in [('MC_Ledger.cfg', {}), ('MC_Ledger_dup.cfg', {})] + (
+                [] if ctx.quick else [('MC_Ledger4.cfg', {}), ('MC_Ledger_dup4.cfg', {})]) + [
                         ('MC_Ledger_cov.cfg', dict(coverage=True, workers=4, must_cover=(
                             'Build', 'Start', 'NextEntryE', 'NextEntryP', 'NextPosting', 'NextTyped', 'NextDirectory', 'NextCommodity', 'Finish')))]:
             res = tlc(ctx, 'MC_Ledger', cfg, leg='MC', **kw)
@@ -910,13 +951,23 @@ def run(ctx):
         tlc(ctx, 'MC_Ledger', 'MC_Ledger_inplace.cfg', leg='MC-nonvacuity', expect_violation='HistoryFree', workers=2)
         # the key space distinguishes keys by the case of their letters: a lookup that lower-cases the key is rejected
         tlc(ctx, 'MC_Ledger', 'MC_Ledger_foldcase.cfg', leg='MC-nonvacuity', expect_violation='LookupsEqDecl', workers=2)
+        # several directives for one currency / account: a commodity map that keeps the FIRST directive (dict.setdefault)
+        # is rejected for #commodities (and, thorough tier, for commodity_meta; an open/close map that keeps the first
+        # LISTED directive whatever its date for #accounts)
+        tlc(ctx, 'MC_Ledger', 'MC_Ledger_firstcommodity.cfg', leg='MC-nonvacuity', expect_violation='MechEqDecl', workers=2)
+        if not ctx.quick:
+            tlc(ctx, 'MC_Ledger', 'MC_Ledger_firstcommodity_lk.cfg', leg='MC-nonvacuity', expect_violation='LookupsEqDecl',
+                workers=4)
+            tlc(ctx, 'MC_Ledger', 'MC_Ledger_listedopen.cfg', leg='MC-nonvacuity', expect_violation='MechEqDecl', workers=2)
     rec = Recorder(ctx, ctx.path('ledger_trace.ndjson'))
     # ---- S2C
     if not only or 'S2C' in only:
         s2c = S2C(ctx, rec, ctx.pick(9, 29), procs=ctx.pick(4, 8))
         stats = s2c.stats
         # the generator output is consumed in bounded portions (a 2-directive ledger line is ~10 kB of JSON)
-        runs = [('Gen_Ledger1.cfg', dict(env={'GEN_PART': -1}))]
+        # Gen_LedgerDup: every ledger of <= 3 directives in which an account is opened / closed or a currency declared
+        # by more than one directive (alphabet of 2 transactions + 9 such directives)
+        runs = [('Gen_Ledger1.cfg', dict(env={'GEN_PART': -1})), ('Gen_LedgerDup.cfg', dict(env={'GEN_PART': -1}))]
         if not ctx.quick:
             runs += [('Gen_Ledger2.cfg', dict(env={'GEN_PART': part})) for part in range(GEN_PARTS)]
         # simulated walks of 6 directives; every walk emits ~600 ledgers (all successors of each of its states)
@@ -927,7 +978,12 @@ def run(ctx):
         try:
             for cfg, kw in runs:
                 res = tlc(ctx, 'Gen_Ledger', cfg, leg='GEN', **kw)
-                s2c.batch(res.printed)
+                printed = res.printed
+                if cfg == 'Gen_LedgerDup.cfg' and ctx.quick and len(printed) > DUP_QUICK:
+                    # quick tier: a seeded sample of the ~650 ledgers (a replay costs ~20 ms per ledger)
+                    printed = random.Random(ctx.seed).sample(printed, DUP_QUICK)
+                s2c.batch(printed, alphabet='dup' if cfg == 'Gen_LedgerDup.cfg' else '')
+                del printed
                 del res
                 ctx.log('S2C %s: %d ledgers so far, %d cells, %d mismatching' % (cfg, stats['n'], stats['cells'], stats['bad']))
         finally:
@@ -940,7 +996,11 @@ def run(ctx):
                 directives_by_kind=stats['kinds'], uncovered_cells=stats['uncovered'],
                 unprintable_for_reload=stats['unprintable'], ledgers_read_after_a_history=stats['with_history'],
                 history_statements_executed=stats['statements'], history_forms=stats['forms'],
-                lookups_of_keys_with_upper_case_letters_having_a_value=stats['mixed'])
+                lookups_of_keys_with_upper_case_letters_having_a_value=stats['mixed'],
+                ledgers_with_an_account_or_currency_of_several_directives=stats['ties'])
+        missing = [k for k in ('open', 'close', 'commodity') if not stats['ties'].get(k)]
+        if missing:
+            raise MachineryError('vacuity: no generated ledger has several %s directives for one account / currency' % missing)
         # (open_meta / commodity_meta need an open / commodity directive and a posting in ONE ledger: every pair in the
         # thorough tier, as the simulated walks happen to go in the quick one -- the recorded leg has its own guard)
         missing = [fn for fn in ('meta', 'entry_meta', 'any_meta') + (() if ctx.quick else ('open_meta', 'commodity_meta'))
@@ -976,10 +1036,13 @@ def run(ctx):
             raise MachineryError('C2S: nothing recorded')
         else:
             rec.finish('example ledger windows of 40 directives; random direct ledgers; random printed+loaded ledgers '
-                       '(booking, padding); reloaded generator ledgers; each read after a random history of 0..4 statements '
-                       'on the same connection')
+                       '(booking, padding; both with commodities re-declared and accounts opened / closed again); reloaded '
+                       'generator ledgers; each read after a random history of 0..4 statements on the same connection')
             if rec.lines and not rec.with_history:
                 raise MachineryError('vacuity: no recorded ledger was read after a history')
+            if rec.lines and not ctx.violations and not (rec.ties.get('commodity') and rec.ties.get('open')):
+                raise MachineryError('vacuity: no recorded ledger declares a currency / opens an account by several '
+                                     'directives (%s)' % rec.ties)
             if rec.lines and not ctx.violations and not (rec.mixed.get('open_meta') and rec.mixed.get('commodity_meta')):
                 raise MachineryError('vacuity: no recorded ledger has a key with an upper-case letter on an open and on a '
                                      'commodity directive that a posting looks up (%s)' % rec.mixed)
